@@ -3,7 +3,7 @@
 import json, sys
 pid, wt = sys.argv[1], sys.argv[2]
 focus = sys.argv[3] if len(sys.argv) > 3 else ''
-FOCUS = {'': '', 'history': ' At least ONE of the two changes must only manifest through a multi-step sequence of operations on the same live objects (re-use after a parameter/setting change, second call on a different grid, re-load, re-compile, cache re-use) or through two cooperating edits in different functions that each look harmless alone; the other should need an unusual-but-legal input (boundary value, degenerate size, unsorted/duplicated/tied data, extreme magnitude, rarely used option).'}[focus]
+FOCUS = {'': '', 'boundary': ' ONE of the two changes must only manifest at a boundary or degenerate point of the legal input domain that ordinary use rarely visits (smallest legal sizes such as a single layer / single wavenumber / single sample / two rows, values exactly equal or exactly on a grid node / edge / limit, zero or unset sentinel values, extreme but legal magnitudes, descending or unsorted order where any order is legal); the OTHER must be a pair of edits in two different functions or files that each look harmless alone and only break the property together, or a unit/convention slip that cancels out in the common configuration and shows only in a less common one.', 'history': ' At least ONE of the two changes must only manifest through a multi-step sequence of operations on the same live objects (re-use after a parameter/setting change, second call on a different grid, re-load, re-compile, cache re-use) or through two cooperating edits in different functions that each look harmless alone; the other should need an unusual-but-legal input (boundary value, degenerate size, unsorted/duplicated/tied data, extreme magnitude, rarely used option).'}[focus]
 p = [json.loads(l) for l in open('/verif/properties.jsonl') if json.loads(l)['id'] == pid][0]
 print(f"""You are helping test a verification effort by seeding a realistic defect into a Python code base.
 
